@@ -2,14 +2,15 @@
    Property theorems only.  Proofs: thm/C08Thm.v (real analysis, over the GENERATED definitions of world A:
    distance entries, kernel profiles, compute_cov_func, mle, nn_term, loss, transform, compute_ls, compute_mu,
    initial_value_target), thm/C08MxThm.v (MathComp, any real closed field).
-   Partial (kept visible): "fitted values follow the permutation / are invariant" needs existence and uniqueness of
-   the minimiser of the objective; C08_fitted_follow_permutation_partial proves that the UNIQUE minimiser of the
-   reordered problem is the reordered minimiser, uniqueness itself is a hypothesis.  The nearest-neighbour search is
+   "Fitted values follow the permutation": C08_fitted_follow_permutation proves that EVERY minimiser of the reordered
+   problem is the reordered minimiser; uniqueness is a theorem (K + jI spd, concave likelihood term => strictly convex
+   function-space objective; thm/C08UniqThm.v, instantiated at R with the generated nn_term in thm/C08UniqR.v).
+   Partial (kept visible): existence of the minimiser is not proved.  The nearest-neighbour search is
    a library contract (distance to the nearest other row; validated against brute force by C03/C14). *)
 From Coq Require Import Reals List ZArith Lra Permutation.
 From Coquelicot Require Import Coquelicot.
 From MellonV Require Import ALists AKernels AKExpr ACovFunc AInference AKernelsThm ADistThm AInferenceThm C08Thm C08OrthThm.
-From MellonV Require C08MxThm.
+From MellonV Require MxInst C08MxThm C08UniqThm C08UniqR.
 Import ListNotations.
 
 Section RealPart.
@@ -177,9 +178,43 @@ Theorem C08_fitted_follow_permutation_partial (ell : F -> F -> F) n (K : 'M[F]_n
   C08MxThm.unique_min (C08MxThm.objective ell K j mu r) f ->
   C08MxThm.unique_min (C08MxThm.objective ell (perm_mx s *m K *m (perm_mx s)^T) j mu (perm_mx s *m r)) (perm_mx s *m f).
 Proof. exact: C08MxThm.fitted_follow_permutation_partial. Qed.
+
+(* Uniqueness is no longer a hypothesis: with K + jI symmetric positive definite and a likelihood term that is
+   (midpoint-)concave in the log-density, J is strictly convex, any two minimisers coincide, and every minimiser of the
+   reordered problem is the reordered minimiser (thm/C08UniqThm.v).  Existence of a minimiser is not proved. *)
+Theorem C08_objective_min_unique (ell : F -> F -> F) n (K : 'M[F]_n) (j mu : F) (r f g : 'cV[F]_n) :
+  MxInst.spd (K + j%:M) -> C08UniqThm.concave2 ell ->
+  C08UniqThm.is_min (C08MxThm.objective ell K j mu r) f -> C08UniqThm.is_min (C08MxThm.objective ell K j mu r) g -> f = g.
+Proof. exact: C08UniqThm.objective_min_unique. Qed.
+
+Theorem C08_fitted_follow_permutation (ell : F -> F -> F) n (K : 'M[F]_n) (j mu : F) (r f g : 'cV[F]_n) (s : 'S_n) :
+  MxInst.spd (K + j%:M) -> C08UniqThm.concave2 ell ->
+  C08UniqThm.is_min (C08MxThm.objective ell K j mu r) f ->
+  C08UniqThm.is_min (C08MxThm.objective ell (perm_mx s *m K *m (perm_mx s)^T) j mu (perm_mx s *m r)) g ->
+  g = perm_mx s *m f.
+Proof. exact: C08UniqThm.fitted_follow_permutation. Qed.
+
+Theorem C08_permuted_minimiser_is_min (ell : F -> F -> F) n (K : 'M[F]_n) (j mu : F) (r f : 'cV[F]_n) (s : 'S_n) :
+  K + j%:M \in unitmx ->
+  C08UniqThm.is_min (C08MxThm.objective ell K j mu r) f ->
+  C08UniqThm.is_min (C08MxThm.objective ell (perm_mx s *m K *m (perm_mx s)^T) j mu (perm_mx s *m r)) (perm_mx s *m f).
+Proof. exact: C08UniqThm.permuted_minimiser_is_min. Qed.
 End MatrixPart.
+
+From MellonV Require Import Rstruct.
+(* ... and at Coq's real numbers with the GENERATED nearest-neighbour term nn_term (concavity: thm/AConvexThm.v) *)
+Theorem C08_nn_fitted_follow_permutation (lgam : R -> R) (d : R) n (K : 'M[R]_n) (j mu : R) (r f g : 'cV[R]_n) (s : 'S_n) :
+  (MxInst.spd (K + j%:M))%R ->
+  C08UniqThm.is_min (C08MxThm.objective (C08UniqR.ell_nn lgam d) K j mu r) f ->
+  C08UniqThm.is_min (C08MxThm.objective (C08UniqR.ell_nn lgam d) (perm_mx s *m K *m (perm_mx s)^T)%R j mu (perm_mx s *m r)%R) g ->
+  g = (perm_mx s *m f)%R.
+Proof. exact: C08UniqR.nn_fitted_follow_permutation. Qed.
 
 Print Assumptions C08_sqdist_isometry_mx.
 Print Assumptions C08_gram_permutation.
 Print Assumptions C08_objective_permutation.
 Print Assumptions C08_fitted_follow_permutation_partial.
+Print Assumptions C08_objective_min_unique.
+Print Assumptions C08_fitted_follow_permutation.
+Print Assumptions C08_permuted_minimiser_is_min.
+Print Assumptions C08_nn_fitted_follow_permutation.
